@@ -317,6 +317,27 @@ var growExempt = map[string]string{
 	"(*harfbuzz.Buffer).shiftForward": "makes room in Info for glyphs that moveTo takes back from the output buffer: the total number of glyphs does not change",
 }
 
+// sameLengthCopy: the value stored into field fld is append(make(T, 0, n), <load of fld>...): the same elements in a new
+// array, so the length of the slice does not change.
+func sameLengthCopy(st *ssa.Store, fld *types.Var) bool {
+	c, ok := st.Val.(*ssa.Call)
+	if !ok {
+		return false
+	}
+	bi, ok := c.Common().Value.(*ssa.Builtin)
+	if !ok || bi.Name() != "append" || len(c.Common().Args) != 2 {
+		return false
+	}
+	mk, ok := c.Common().Args[0].(*ssa.MakeSlice)
+	if !ok {
+		return false
+	}
+	if k, isK := intConst(mk.Len); !isK || k != 0 {
+		return false
+	}
+	return isLoadOfField(c.Common().Args[1], fld)
+}
+
 func recExtra(p *Prog) map[string]recJust { return map[string]recJust{} }
 
 func controlsRec(cp *Prog, r *Report) {
@@ -359,6 +380,10 @@ func ruleSync(p *Prog, r *Report, c syncCfg) {
 		for _, b := range f.Blocks {
 			for _, in := range b.Instrs {
 				if !storesField(in, fInfo) {
+					continue
+				}
+				if sameLengthCopy(in.(*ssa.Store), fInfo) {
+					// Info = append(make(T, 0, n), Info...): a re-allocation with more capacity, the length is unchanged
 					continue
 				}
 				writers++
